@@ -33,6 +33,10 @@ pub const STD_FB: &[&str] = &[
     "CTU_ULINT", "CTD_DINT", "CTD_LINT", "CTD_UDINT", "CTD_ULINT", "CTUD_DINT", "CTUD_LINT", "CTUD_ULINT", "CTUD_UDINT",
 ];
 
+/// words of `TEXTUAL` that are ordinary identifiers outside the one construct that mentions them
+/// (the pinned tree accepts each as variable, element, parameter, type and POU name)
+pub const CONTEXTUAL_NAMES: &[&str] = &["Interval", "Priority", "Single", "Overlap", "ms", "us", "ns", "d", "h", "m", "s"];
+
 pub fn is_reserved(name: &str) -> bool {
     let u = name.to_ascii_uppercase();
     KEYWORDS.contains(&u.as_str()) || TEXTUAL.contains(&u.as_str()) || STD_FB.contains(&u.as_str())
@@ -57,6 +61,22 @@ impl Names {
     }
     /// a fresh identifier, unique (case-insensitively) within this generator
     pub fn fresh(&mut self, t: &mut Tape) -> String {
+        // now and then a word that the grammar matches by text in ONE place (task parameters,
+        // duration units) but that IEC 61131-3 does not reserve: it is a name everywhere else
+        if self.prefix.is_empty() && t.ratio(1, 25) {
+            let w = *t.pick(CONTEXTUAL_NAMES);
+            let w = match t.below(3) {
+                0 => w.to_ascii_lowercase(),
+                1 => w.to_ascii_uppercase(),
+                _ => w.to_string(),
+            };
+            let key = w.to_ascii_lowercase();
+            if !self.used.contains(&key) {
+                self.used.insert(key);
+                self.all.push(w.clone());
+                return w;
+            }
+        }
         let mut s = self.prefix.clone();
         if t.ratio(1, 10) {
             s.push_str(*t.pick(KW_PREFIXES));
